@@ -20,19 +20,21 @@ EXPLANATION = "round trip preserves every harmonic of chi for all coefficient va
 KEYS = ["C10", "C12", "phi12", "C21", "phi21", "C23", "phi23", "C30", "C32", "phi32", "C34", "phi34"]
 
 
-def _spec(name, m, C, phi, assume_valid, assume_numeric=()):
+def _spec(name, m, C, phi, assume_valid, assume_numeric=(), options=None):
     keys = [C] + ([phi] if phi else [])
     zero = {k: 0 for k in KEYS}
     fields = {k: (Real if k in keys else Const(0)) for k in KEYS}
     ens = f"q['{C}'] * np.cos({m} * (ang - q['{phi}'])) == polar['{C}'] * np.cos({m} * (ang - polar['{phi}']))" if phi else f"q['{C}'] == polar['{C}']"
     return dict(
         module=M, qualname="polar2cartesian",
-        params=dict(polar=Dct(fields)), extra=dict(ang=Real), requires=[],
+        params=dict(polar=Dct(fields)), extra=dict(ang=Real), requires=[], options=dict(options or {}),
         post_ghost={"q": "cartesian2polar(result)"},
         assume_valid=list(assume_valid), assume_numeric=list(assume_numeric),
         ensures=[(f"roundtrip-{name}", ens)],
         native_gen=lambda rng: dict(polar={k: (rng.uniform(-50, 50) if k in keys else 0.0) for k in KEYS}, ang=rng.uniform(-7, 7)),
         cross_check_n=60,
+        # the C34 harmonic (algebraic constants) is at the edge of what the solvers do: bounded budget, no retries
+        **(dict(z3_timeout_ms=12000, no_retries=True) if name == "C34" else {}),
     )
 
 
@@ -54,7 +56,8 @@ SPECS = {
     "C34": _spec("C34", 4, "C34", "phi34", _adds(4, "phi34", "4 * q['phi34']") +
                  ["trig_add(np.pi / 2, -4 * polar['phi34'])", "trig_pi()", "trig_neg(4 * polar['phi34'])",
                   "trig_cong(4 * np.arctan(1 / np.sqrt(3 + np.sqrt(8.0))) - 4 * polar['phi34'], np.pi / 2 - 4 * polar['phi34'])"],
-                 assume_numeric=["4 * np.arctan(1 / np.sqrt(3 + np.sqrt(8.0))) == np.pi / 2"]),
+                 assume_numeric=["4 * np.arctan(1 / np.sqrt(3 + np.sqrt(8.0))) == np.pi / 2"],
+                 options=dict(algebraic_sqrt=True)),
 }
 
 
